@@ -333,6 +333,13 @@ class Waiting(State):
             self.done_callback = None
         self._waiting_future = futures.Future()
 
+    def exit(self) -> None:
+        super().exit()
+        # If the state is left while a step is still blocked in ``execute`` (the process was failed from outside)
+        # nobody will resume the wait anymore: release the step, its outcome is discarded by the process.
+        if not self._waiting_future.done():
+            self._waiting_future.set_result(NULL)
+
     def interrupt(self, reason: Any) -> None:
         # This will cause the future in execute() to raise the exception
         if self._waiting_future.done():
